@@ -430,7 +430,7 @@ fn emit(out: &mut Out, id: u64, c: &Cfg, fam: &str, stream: &str, thorough: bool
             if f.m.exit_reason == ExitReason::ReachedIterations {
                 out.rust_fail(id, 1024, &tagrefs, "solver stopped at the iteration limit", &desc);
             }
-            let replay = replay_ok && f.m.iterations <= (if thorough { 6000 } else { 2500 });
+            let replay = replay_ok && f.m.iterations <= (if stream == "shrink" { 8000 } else if thorough { 6000 } else { 2500 });
             out.bump(if replay { "smo_replayed_bit_exact" } else { "oracle_only" });
             out.bump(&format!("iterations_{}", if f.m.iterations == 0 { "0" } else if f.m.iterations <= n { "le_n" } else if f.m.iterations <= 10 * n { "le_10n" } else { "gt_10n" }));
             // tolerances: KKT within 2 * eps of the solver (the stopping rule bounds the violation by eps) plus a
@@ -562,23 +562,29 @@ fn main() {
     // shrinking schedule (every min(n, 1000) iterations) are hit in different states; three larger problems ----
     for k in 0..(if thorough { 60u64 } else { 24 }) {
         let mut r = rng.fork();
-        let kind = [Kind::CSvc, Kind::CSvc, Kind::EpsSvr, Kind::NuSvc, Kind::OneClass, Kind::CSvc][k as usize % 6];
         let large = k % 8 == 7;
-        let (mut c, fam) = gen_cfg(&mut r, if large { 125 } else { 36 }, Some(kind));
-        if large && c.x.len() < 104 {
-            // top up to more than 100 samples
-            let (c2, _) = gen_cfg(&mut r, 125, Some(kind));
-            if c2.x.len() >= 104 && c2.x[0].len() == c.x[0].len() { c.x = c2.x; c.yb = c2.yb; c.yr = c2.yr; }
-        }
-        c.shrink = true;
-        c.platt = false;
-        c.eps = [0.3, 0.1, 0.03, 0.01][(k / 2) as usize % 4];
-        if kind == Kind::CSvc { c.par1 = [1.0, 10.0, 100.0][k as usize % 3]; c.par2 = c.par1 * [1.0, 0.3][k as usize % 2]; }
-        if kind == Kind::NuSvc {
-            let n = c.x.len(); let npos = c.yb.iter().filter(|b| **b).count();
-            c.par1 = 0.6 * (2.0 * npos.min(n - npos) as f64 / n as f64).min(1.0);
-        }
-        emit(&mut out, id, &c, &format!("{}", fam), "shrink", thorough, &mut max_slack_ratio);
+        let slow = !large && k % 4 != 3;
+        let kind = if large { Kind::CSvc } else { [Kind::CSvc, Kind::EpsSvr, Kind::CSvc, Kind::NuSvc, Kind::CSvc, Kind::EpsSvr, Kind::OneClass, Kind::CSvc][k as usize % 8] };
+        let d = 1 + r.below(2) as usize;
+        let n = if large { 104 + r.below(16) as usize } else if slow { 8 + r.below(13) as usize } else { 12 + r.below(24) as usize };
+        // overlapping classes: many bounded and free support vectors, slow convergence
+        let (x, yb) = gen_points(&mut r, n, d, if k % 2 == 0 { 1 } else { 2 });
+        let yr = gen_targets(&mut r, &x, 1);
+        let mut q = vec![x[0].clone(), x[n / 2].clone()];
+        q.push((0..d).map(|_| 3.0 * r.gauss()).collect());
+        let ker = if large || k % 3 == 0 { Ker::Linear } else if k % 3 == 1 { Ker::Gauss(2.0) } else { Ker::Poly(1.0, 2.0) };
+        let npos = yb.iter().filter(|b| **b).count();
+        let (par1, par2) = match kind {
+            Kind::CSvc => { let c = if large { 10.0 } else { [30.0, 100.0, 1000.0][k as usize % 3] }; (c, c * [1.0, 0.3][k as usize % 2]) }
+            Kind::EpsSvr => ([20.0, 100.0][k as usize % 2], 0.05),
+            Kind::NuSvc => (0.6 * (2.0 * npos.min(n - npos) as f64 / n as f64).min(1.0), 0.0),
+            _ => (0.4, 0.0),
+        };
+        let eps = if slow || large { [1e-3, 1e-4][k as usize % 2] } else { [0.3, 0.1, 0.03, 0.01][(k / 4) as usize % 4] };
+        let mut x = x;
+        if let Ker::Poly(_, _) = ker { for row in x.iter_mut() { for v in row.iter_mut() { *v *= 0.5; } } }
+        let c = Cfg { kind, ker, x, yb, yr, par1, par2, eps, shrink: true, platt: false, q, variant: 0 };
+        emit(&mut out, id, &c, if k % 2 == 0 { "1" } else { "2" }, "shrink", thorough, &mut max_slack_ratio);
         id += 1;
     }
     // ---- stream "guard": malformed hyper-parameters must be rejected, boundary values accepted ----
